@@ -139,7 +139,7 @@ def nostuff_open_frame_path(cfg, k):
         for fill in range(k, k + 30):
             frames, wire, starts, spans = build(fill)
             a_, b_ = 2049, 2050                          # frame octet #2048 is stream[2048]; the next two octets follow the give-up point
-            if any(lo <= a_ and b_ < hi for lo, hi in spans):
+            if any(lo <= a_ <= lo + 2 for lo, hi in spans):     # early in a payload: a reader restarting there has >= 7 octets before the next flag
                 land = (fill, (a_, b_))
                 break
         fill, free_at = land
